@@ -72,9 +72,9 @@ impl Lexer {
     /// This function will update the current character and the position
     /// of the Lexer struct.
     fn consume_char(&mut self) {
-        // Get the next character
-        if let Some(ch) = self.peek(1) {
-            // Update the position
+        // The row and column always describe the character at `pos`, so they
+        // are advanced according to the character that is being left.
+        if let Some(ch) = self.current() {
             if ch == '\n' {
                 self.row += 1;
                 self.col = 0;
@@ -146,8 +146,7 @@ impl Lexer {
     ///
     /// This function will return the current position of the lexer.
     fn get_pos(&self) -> Position {
-        let column = if self.col == 0 { 0 } else { self.col - 1 };
-        Position::new(self.row, column, self.pos)
+        Position::new(self.row, self.col, self.pos)
     }
 
     /// Lex a unicode escape code.
